@@ -3,6 +3,7 @@ from .common import pyvc_units, frame_unit, CONV_FILES, DISPLAY_FILES, GATE_FILE
 LEVEL = "other"
 MODULES = ["vf.contracts.c_state", "vf.contracts.c_circuit_modes", "vf.contracts.c_parameters", "vf.contracts.c_rewrite"]
 EXPLANATION = ('Clause table. PROVED unbounded (pyvc): Circuit.herald, Circuit.bs, Circuit.ps, Circuit.loss, Circuit._mode_in_range, check_loss, Parameter.set / min_bound / max_bound, State.s setter / __setitem__: on every raising exit everything reachable from the arguments equals its pre-state (exc-frame obligations), and they raise exactly under the stated conditions; State.s returns a fresh copy; no function of sdk / converter / interferometer / display / tomography / gate modules writes module- or class-level mutable state (frame pass). BOUNDED (native): Circuit.add never modifies its argument and a rejected add changes nothing (about 10 000 histories quick / 50 000 thorough, shared with C02); 96 rejected construction calls on parents with and without ancillas raise the documented error and change nothing; add / + / copy / simulate / sample / analyse / Reck.map / Display / tomography / qiskit conversion leave every circuit, state and shared module-level gate instance unchanged; editing a sub-circuit afterwards does not change the parent. NOT under contract: Circuit.add, copy (bounded only). PROVED LATER (pyvc): exceptional frames of Circuit.barrier and Circuit.mode_swaps.')
+EXPLANATION = EXPLANATION + ' ADDED IN ROUNDS 5-8. PROVED (pyvc): Circuit.copy / __add__ / __init__, unpack_circuit_spec, compress_mode_swaps and convert_non_adj_beamsplitters leave their arguments untouched (frames), Circuit.mode_swaps / barrier with ancillas. BOUNDED: every refusal of add() against heralded / grouped arguments and arguments holding out-of-range parameters; copies and sums made earlier are independent of later re-indexing operations on the other circuit.'
 ASSUMPTIONS = ["two input references do not alias", "bounded parts: stated families of parents / sub-circuits / rejected calls"]
 TRUSTED = ["z3 5.1", "pyvc frame tracking (provenance FRESH / argument path)", "snapshot comparison of observable circuit state"]
 NSHARDS = 8
